@@ -182,6 +182,7 @@ type countingSubscriber struct {
 	directSubscriber
 	subscribes int
 	ctxs       []context.Context
+	delivered  []*Message    // messages the Router's side actually took from the subscription
 	entered    chan struct{} // closed (if non-nil) when Subscribe is first entered
 	gate       chan struct{} // Subscribe waits for this (if non-nil) before returning
 }
@@ -214,6 +215,9 @@ func (s *countingSubscriber) Subscribe(ctx context.Context, topic string) (<-cha
 				}
 				select {
 				case out <- m:
+					s.mu.Lock()
+					s.delivered = append(s.delivered, m)
+					s.mu.Unlock()
 				case <-ctx.Done():
 					return
 				}
